@@ -160,6 +160,66 @@ Definition sub_cache (lim : Z) (use_filters : bool) (filt : N -> bool) (hnd : ch
       end
   end.
 
+(* The same computation, returning the ingredients of the decision instead of
+   the reply (used to state theorems over arbitrary handler scripts and raced
+   publications; Proofs/Recover.v shows that [sub_cache] is [finish] applied to
+   this trace):
+     ct_read : the hub on which the deciding cache read ran,
+     ct_pubs, ct_rc : what isCacheRecovered returned for that read,
+     ct_buf  : the PUB/SUB buffer merged afterwards,
+     ct_top, ct_ep : the stream position of the deciding read. *)
+Record ctrace := mkCtrace {
+  ct_read : hub; ct_pubs : list item; ct_rc : bool; ct_buf : list pub; ct_top : N; ct_ep : N
+}.
+
+Definition sub_cache_tr (lim : Z) (use_filters : bool) (filt : N -> bool) (hnd : chandler)
+           (h : hub) (ch req_off req_ep meta : N) (race : list (N * popts)) : option ctrace :=
+  let '(h0, r) := recover_cache lim use_filters filt h ch meta in
+  let '(h1, rbuf) := race_pubs filt h0 ch race in
+  match r with
+  | None => None
+  | Some (latest, recp, top, ep) =>
+      let '(pubs, recovered) := is_cache_recovered latest recp top ep req_off req_ep in
+      match latest, hnd with
+      | None, HPopulate ps =>
+          let '(h2, hbuf) := race_pubs filt h1 ch ps in
+          if negb recovered then
+            let '(h3, r2) := recover_cache lim use_filters filt h2 ch meta in
+            match r2 with
+            | None => None
+            | Some (latest2, recp2, top2, ep2) =>
+                let '(pubs2, recovered2) := is_cache_recovered latest2 recp2 top2 ep2 req_off req_ep in
+                Some (mkCtrace h2 pubs2 recovered2 (rbuf ++ hbuf) top2 ep2)
+            end
+          else Some (mkCtrace h pubs recovered (rbuf ++ hbuf) top ep)
+      | _, _ => Some (mkCtrace h pubs recovered rbuf top ep)
+      end
+  end.
+
+(* Server-side Client.Subscribe (RecoverSince / AutoCacheRecover): the same
+   subscribeCmd runs (no RejectUnrecovered flag, no client tags filter), but
+   the client is told through a Subscribe PUSH that carries only offset, epoch,
+   recoverable, positioned and data: neither the recovered flag nor the
+   recovered publications of the result (getSubscribePushReply). *)
+Inductive spush := PErr (code : N) | PSub (off ep : N).
+
+Definition server_push (r : sres) : spush :=
+  match r with ROk _ _ off ep => PSub off ep | RErr c => PErr c end.
+
+Definition srv_stream (lim : Z) (filt : N -> bool) (h : hub) (ch off ep meta : N) : hub * spush :=
+  let '(h1, r) := sub_stream lim filt h ch off ep false meta [] in (h1, server_push r).
+
+Definition srv_cache (lim : Z) (uf : bool) (filt : N -> bool) (hnd : chandler)
+           (h : hub) (ch off ep meta : N) : hub * spush :=
+  let '(h1, r) := sub_cache lim uf filt hnd h ch off ep meta [] in (h1, server_push r).
+
+Definition spush_eqb (a b : spush) : bool :=
+  match a, b with
+  | PErr x, PErr y => x =? y
+  | PSub o1 e1, PSub o2 e2 => (o1 =? o2) && (e1 =? e2)
+  | _, _ => false
+  end.
+
 Definition sres_eqb (a b : sres) : bool :=
   match a, b with
   | RErr x, RErr y => x =? y
